@@ -155,7 +155,16 @@ pub fn values(ty: &Ty, cap: usize) -> Vec<Val> {
             v
         }
         Ty::Wrap(_, t) => values(t, cap),
-        Ty::Lib(l) => values(&l.wire, cap).into_iter().filter(|v| lib_accepts(&l.key, v)).collect(),
+        Ty::Lib(l) => {
+            let mut v: Vec<Val> = values(&l.wire, cap).into_iter().filter(|v| lib_accepts(&l.key, v)).collect();
+            match l.key.as_str() {
+                "Canary1" => v.push(Val::U(0x47566843)),
+                "Duration" => v.extend([Val::U(999_999_999), Val::U(1_000_000_000), Val::U(u64::MAX as u128 * 1_000_000_000 + 999_999_999)]),
+                "SystemTime" => v.extend([Val::U(1_700_000_000_123_456_789), Val::U((1u128 << 127) | 5_000_000_001), Val::U((1u128 << 127) | 1)]),
+                _ => {}
+            }
+            v
+        }
         Ty::Seq(k, t) => {
             let mut ev = values(t, sub);
             if k.is_set() || *k == SeqKind::BinaryHeap {
@@ -270,6 +279,10 @@ pub fn representable_at(ty: &Ty, v: &Val, ver: u32) -> bool {
 pub fn lib_accepts(key: &str, v: &Val) -> bool {
     match (key, v) {
         ("ArrayString", Val::Str(s)) => s.len() <= 8,
+        // Duration holds u64 seconds; SystemTime is platform limited (i64 seconds)
+        ("Duration", Val::U(x)) => *x / 1_000_000_000 <= u64::MAX as u128,
+        ("SystemTime", Val::U(x)) => (*x & ((1u128 << 127) - 1)) < (1u128 << 90) && *x != (1u128 << 127),
+        ("Canary1", Val::U(x)) => *x == 0x47566843,
         _ => true,
     }
 }
